@@ -32,8 +32,9 @@ impl ExtraHashView {
 }
 
 // ---- MMR proof model: records what it was asked to verify --------------------------------------------
-pub fn leaf_index_to_mmr_size(i: u64) -> u64 { i ^ 0x5555 }   // injective stand-ins
-pub fn leaf_index_to_pos(i: u64) -> u64 { i ^ 0xAAAA }
+// injective stand-ins; ckb-merkle-mountain-range computes `2 * (index + 1) - ..` (helper.rs): with overflow checks (dev and this repo's release profile) an index >= 2^63 - 1 aborts
+pub fn leaf_index_to_mmr_size(i: u64) -> u64 { assert!(i <= u64::MAX / 2 - 1, "REAL-PANIC: ckb-merkle-mountain-range leaf_index_to_mmr_size: attempt to multiply with overflow (leaf index >= 2^63 - 1)"); i ^ 0x5555 }
+pub fn leaf_index_to_pos(i: u64) -> u64 { assert!(i <= u64::MAX / 2 - 1, "REAL-PANIC: ckb-merkle-mountain-range leaf_index_to_pos: attempt to multiply with overflow (leaf index >= 2^63 - 1)"); i ^ 0xAAAA }
 #[derive(Clone, Copy, Default, Debug, PartialEq, Eq)] pub struct Digest { pub of_header: u8, pub number: u64 }
 impl Digest { pub fn verify(&self) -> Result<(), String> { unsafe { if DIGEST_OK.apply(self.of_header as u64) & 1 == 1 { Ok(()) } else { Err(String) } } } }
 impl HeaderView { pub fn digest(&self) -> Digest { Digest { of_header: self.id, number: self.number } } }
